@@ -41,6 +41,7 @@ ObsInit == [ regs |-> << >>,  \* g -> summary of registration number g
              rq   |-> << >>,  \* <<r, tok>> -> type of the latest new request with that key
              req  |-> {},     \* <<r, mid>> of the request datagrams seen (a second copy is a duplicate)
              ex   |-> << >>,  \* <<r, mid>> -> separate notification sent under that message ID
+             tor  |-> {},     \* <<r, t>>: a confirmable message to r gave up at t (everything towards r fails then)
              nchg |-> 0,      \* state changes so far
              cnt  |-> 0,      \* the resource's latest update_observation_count value
              rstnon |-> 0,    \* Resets answering non-confirmable notifications (recorded, not judged)
@@ -58,6 +59,10 @@ NewReg(e, ty, nchg) ==
    lastst |-> -1,          \* state number the last distinct notification was rendered at
    seen |-> {},            \* <<mid, dig>> of its distinct notifications (a repetition is a retransmission)
    cb |-> 0,               \* runs of the cancellation callback
+   cbt |-> -1,             \* when the cancellation callback ran (first time)
+   told |-> FALSE,         \* the application handed it an unsuccessful response at some point (that response
+                           \* may be coalesced away, or be dropped with a backlog, so it does not have to
+                           \* appear on the wire; but the end of the registration is explained by it)
    pre |-> e.n,            \* observer count before the registration
    born |-> nchg]          \* state number when it was accepted
 
@@ -90,7 +95,9 @@ TimedOut(o, t, final) ==
                        /\ (final \/ t > o.ex[k].tlast + 2 * o.ex[k].gap)}
 Expire(o, t, final) ==
   LET dead == TimedOut(o, t, final) IN
-  IF dead = {} THEN o ELSE EndAll(CloseEx(o, dead), {o.ex[k].g : k \in dead}, "ConTimeout")
+  IF dead = {} THEN o
+  ELSE EndAll([CloseEx(o, dead) EXCEPT !.tor = @ \cup {<<k[1], o.ex[k].tlast + 2 * o.ex[k].gap>> : k \in dead}],
+              {o.ex[k].g : k \in dead}, "ConTimeout")
 
 (* ---- rx ------------------------------------------------------------------ *)
 ObsRx(o, e) ==
@@ -122,7 +129,16 @@ ObsTx(o, e) ==
       \* state e.st) belongs to the registration that held (remote, token) when that change happened,
       \* i.e. the latest one accepted before it (it may be sent, or retransmitted, after a re-registration)
       g == IF e.g # 0 THEN e.g ELSE IF e.x = "E" THEN HeldAt(o, e.r, e.tok, e.st) ELSE 0
-  IN IF g = 0 \/ ~Has(o.regs, g) THEN o ELSE
+  IN IF g = 0 \/ ~Has(o.regs, g) THEN
+       \* not a notification of a registration; a confirmable one is still an exchange with that endpoint
+       \* whose time-out fails everything towards it
+       IF e.ty # "CON" THEN o
+       ELSE LET xk0 == <<e.r, e.mid>> IN
+            IF Has(o.ex, xk0) /\ o.ex[xk0].dig = e.dig
+              THEN LET x == o.ex[xk0] IN
+                   [o EXCEPT !.ex[xk0] = [x EXCEPT !.copies = x.copies + 1, !.gap = e.t - x.tlast, !.tlast = e.t]]
+              ELSE [o EXCEPT !.ex = Put(@, xk0, [g |-> 0, con |-> TRUE, open |-> TRUE, copies |-> 1, tlast |-> e.t, gap |-> 0, dig |-> e.dig])]
+     ELSE
   LET R == o.regs[g]
       md == <<e.mid, e.dig>>
       xk == <<e.r, e.mid>>
@@ -149,7 +165,7 @@ ObsTx(o, e) ==
            o3 == [o2 EXCEPT !.regs[g] = R2]
        IN IF e.ty \in {"CON", "NON"}
             THEN [o3 EXCEPT !.ex = Put(@, xk, [g |-> g, con |-> e.ty = "CON", open |-> e.ty = "CON",
-                                              copies |-> 1, tlast |-> e.t, gap |-> 0])]
+                                              copies |-> 1, tlast |-> e.t, gap |-> 0, dig |-> e.dig])]
             ELSE o3
 
 (* ---- application side ----------------------------------------------------- *)
@@ -161,6 +177,10 @@ ObsChange(o, e) ==
                        IF o.regs[g].phase = "active" /\ o.regs[g].cb = 0
                          THEN [o.regs[g] EXCEPT !.phase = "closing", !.cause = "Last", !.k = e.st]
                          ELSE o.regs[g]]]
+    ELSE IF e.x \in {"unsucc", "shared-unsucc"}
+    THEN [o EXCEPT !.nchg = e.st,
+                   !.regs = [g \in DOMAIN o.regs |->
+                       IF o.regs[g].phase = "active" /\ o.regs[g].cb = 0 THEN [o.regs[g] EXCEPT !.told = TRUE] ELSE o.regs[g]]]
     ELSE [o EXCEPT !.nchg = e.st]
 
 ObsAccept(o, e) ==
@@ -170,7 +190,7 @@ ObsAccept(o, e) ==
 
 ObsCancelCb(o, e) ==
   IF ~Has(o.regs, e.g) THEN Flag(o, "MON_CancelWithoutAccept")
-  ELSE FlagIf([o EXCEPT !.regs[e.g].cb = @ + 1], o.regs[e.g].cb >= 1, "C08_CancelCallbackOnce" \o Detail(o.regs[e.g]))
+  ELSE FlagIf([o EXCEPT !.regs[e.g].cb = @ + 1, !.regs[e.g].cbt = IF @ = -1 THEN e.t ELSE @], o.regs[e.g].cb >= 1, "C08_CancelCallbackOnce" \o Detail(o.regs[e.g]))
 
 ObsObsCount(o, e) == [o EXCEPT !.cnt = e.n]
 
@@ -187,6 +207,12 @@ EndBadOf(o, g) ==
   (IF R.phase \in {"ended", "closing"} /\ R.cb # 1
      THEN {"C08_CancelCallbackOnce:" \o R.cause \o Detail(R), EndsClause(R.cause) \o Detail(R)} ELSE {})
   \cup (IF R.phase = "active" /\ R.cb = 0 /\ R.lastst # o.nchg THEN {"C08_LatestEventuallySent" \o Detail(R)} ELSE {})
+  \* the implementation ended it (the callback ran) although none of the statement's causes occurred: the
+  \* observer still counts on it.  Explained only by what fails everything towards the endpoint -- a
+  \* confirmable message to it gave up at that very instant (transport error and shutdown are causes of
+  \* their own) -- or by an unsuccessful response the application handed to it.
+  \cup (IF R.phase = "active" /\ R.cb >= 1 /\ ~R.told /\ <<R.r, R.cbt>> \notin o.tor
+          THEN {"C08_EndsOnlyForCause" \o Detail(R)} ELSE {})
 
 Live(o) == {g \in DOMAIN o.regs : o.regs[g].phase # "ended" /\ o.regs[g].cb = 0}
 
